@@ -209,6 +209,20 @@ def one_style(ctx, eng, res, stats, sc, args, explicit, roots, walked, style, re
                     eng.drop(d)
                 return
             j = json.loads(out)
+            # the table's footnotes must carry the same descriptions as JSON (byte for byte, for names that survive JSON)
+            tbl_notes = None
+            if style == "full":
+                targs = ["-v", "--no-progress", "--names=full"] + args
+                if real:
+                    rct, outt, errt = S.run_sizer(ctx["bins"]["sizer"], d, targs + [sp for sp, _ in explicit])
+                else:
+                    rct, outt, errt, _ = eng.run_fake(sc, order, [], explicit, extra_args=targs)
+                if rct == 0:
+                    tbl_notes = {}
+                    for ln in outt.split(b"\n"):
+                        mm = re.match(rb"\[\d+\] +([0-9a-f]{40})(?: \((.*)\))?$", ln)
+                        if mm:
+                            tbl_notes.setdefault(mm.group(1).decode(), set()).add(mm.group(2) or b"")
             R = sc.reachable(walked)
             line = sc.model_line("paths " + style[0] + " " + table_tbl, order, roots, names=(style != "none"))
             line = line.replace("paths %s %s 1 " % (style[0], table_tbl), "paths %s %s %d " % (style[0], table_tbl, 0 if style == "none" else 1), 1) if False else line
@@ -248,6 +262,12 @@ def one_style(ctx, eng, res, stats, sc, args, explicit, roots, walked, style, re
                         if clean is False:
                             res.violations.append(vlib.Violation("%s differs from the PathResolver model" % pkey, inp, expected=mstr, observed=val,
                                                                  nofail=True))
+                if tbl_notes is not None and "\ufffd" not in desc and b"\n" not in desc.encode("utf-8", "replace"):
+                    want_note = desc.encode("utf-8")
+                    if oidhex in tbl_notes and want_note not in tbl_notes[oidhex]:
+                        res.violations.append(vlib.Violation(
+                            "the table footnote of %s carries a different description than JSON for the same object" % pkey, inp,
+                            expected=desc, observed=sorted(x.decode("latin1") for x in tbl_notes[oidhex])))
                 # under the fake git: the stated model of rev-parse (Resolve.resolves, transcribed) is the judge
                 if (not real) and desc and style == "full":
                     table = {n: x for n, x in sc.refs}
